@@ -840,6 +840,8 @@ def c11_s(draw, pid, tier, opts=None):
             if bits < 128:
                 free = 128 - bits
                 low = draw(st.integers(0, (1 << min(32, free)) - 1))
+                if free > 32 and draw(st.booleans()):
+                    low = draw(st.integers(0, (1 << free) - 1))      # anywhere inside the network, not just next to its base address
                 v = (net >> free << free) | low
                 if free > 32 and (net >> 32) == 0 and draw(st.booleans()):
                     v |= 0xffff << 32          # an IPv4 client inside a very wide (e.g. ::/8, ::/80) network
